@@ -287,6 +287,8 @@ class CallMixin:
                 env = {f"a{i}": a for i, a in enumerate(args)}
                 env.update({k: v for k, v in kwargs.items() if k != "**"})
                 env["result"] = tv
+                if callee_term is not None:
+                    env["callee"] = TV("val", callee_term)
                 t, side = self.spec(cl, env)
                 self.assume_all(side)
                 self.assume(t)
